@@ -1,7 +1,113 @@
-"""C08 -- see contracts/registry.json for the clauses; D kernels + bounded apply-level stand-in."""
+"""C08 -- see contracts/registry.json for the clauses; D kernels + bounded apply-level stand-in + explicit procedures of a patch."""
+import itertools
+
+import gtirb
+
+from pyvc.run import BResult, Job
+
 from . import apply_bounded, kernels
+
+# (name, lines): instructions are one-byte nops, so the offset of a line is the number of nops before it
+EXPLICIT = {
+    "one-procedure": [".cfi_startproc", "nop", ".cfi_def_cfa_offset 16", "nop", ".cfi_endproc"],
+    "two-procedures-back-to-back": [".cfi_startproc", "nop", ".cfi_def_cfa_offset 16", "nop", ".cfi_endproc", ".cfi_startproc", "nop", ".cfi_def_cfa_offset 24", "nop", ".cfi_endproc"],
+    "two-procedures-with-code-between": [".cfi_startproc", "nop", ".cfi_endproc", "nop", ".cfi_startproc", "nop", ".cfi_def_cfa_offset 32", "nop", ".cfi_endproc"],
+    "three-procedures-back-to-back": [".cfi_startproc", "nop", ".cfi_endproc", ".cfi_startproc", "nop", ".cfi_def_cfa_offset 16", ".cfi_endproc", ".cfi_startproc", "nop", ".cfi_endproc"],
+    "procedure-after-plain-code": ["nop", "nop", ".cfi_startproc", "nop", ".cfi_def_cfa_offset 16", "nop", ".cfi_endproc"],
+}
+
+
+for _k in list(EXPLICIT):
+    # (the evaluator starts a procedure without any rule: the CIE's initial CFA rule is given explicitly)
+    EXPLICIT[_k] = [x for l in EXPLICIT[_k] for x in ([l, ".cfi_def_cfa %rsp, 8"] if l == ".cfi_startproc" else [l])]
+
+
+def _expected(lines):
+    """per nop index: None outside a procedure, else the CFA offset in effect BEFORE that instruction (8 at a startproc on x86-64)"""
+    out, inside, cfa = [], False, None
+    for l in lines:
+        if l == ".cfi_startproc":
+            inside, cfa = True, 8
+        elif l == ".cfi_endproc":
+            inside, cfa = False, None
+        elif l.startswith(".cfi_def_cfa_offset"):
+            cfa = int(l.split()[1])
+        elif l.startswith(".cfi_def_cfa "):
+            cfa = int(l.split(",")[1])
+        else:
+            out.append(cfa if inside else None)
+    return out
+
+
+def explicit_procedures(tier, seed):
+    """C08 for code that brings its OWN procedures (a function inserted with register_insert_function, an assembler result turned into an
+    IR): "every CFI procedure is opened and closed exactly once and in order", the unwind state at every instruction is what the text says"""
+    def run():
+        import logging
+        from bounded import scen
+        from gtirb_rewriting import RewritingContext
+        from gtirb_rewriting.assembler import Assembler
+        from gtirb_rewriting.dwarf.cfi_eval import evaluate_cfi_directives
+        from gtirb_test_helpers import add_text_section, create_test_module
+        logging.getLogger("gtirb_rewriting").setLevel(logging.CRITICAL)
+        br = BResult()
+        br.bound = "5 texts with explicit .cfi_startproc / .cfi_endproc (one, two and three procedures, back to back, with code between, after plain code) x {register_insert_function into the scen module (with / without its own CFI), Assembler(implicit_cfi_procedure=False).finalize().create_ir()}"
+        br.clauses = ["C08/explicit/evaluates-cleanly", "C08/explicit/every-instruction-inside-a-procedure-iff-the-text-says-so-with-the-state-the-text-gives"]
+        distinct = set()
+
+        def states(m, blocks):
+            """offset (from the first block) of every nop -> CFA offset or None, from the evaluator"""
+            blocks = sorted(blocks, key=lambda b: b.address)
+            base = blocks[0].address
+            cur, events = None, {}
+            for blk, off, st in evaluate_cfi_directives(m, blocks):
+                events[blk.address + off - base] = None if st is None else getattr(st.current.cfa, "offset", "?")
+            total = sum(b.size for b in blocks)
+            out = []
+            for i in range(total):
+                if i in events:
+                    cur = events[i]
+                out.append(cur)
+            return out
+        for (name, lines), how in itertools.product(EXPLICIT.items(), ("inserted-function", "inserted-function-into-a-module-with-cfi", "create_ir")):
+            br.cases += 1
+            distinct.add((name, how))
+            desc = {"text": lines, "through": how}
+            want = _expected(lines)
+            try:
+                if how == "create_ir":
+                    ir, m = create_test_module(gtirb.Module.FileFormat.ELF, gtirb.Module.ISA.X64)
+                    add_text_section(m, address=0x1000)
+                    a = Assembler(m, implicit_cfi_procedure=False)
+                    a.assemble("\n".join(lines))
+                    ir2 = a.finalize().create_ir()
+                    m2 = ir2.modules[0]
+                    for bi_ in m2.byte_intervals:
+                        if bi_.address is None:
+                            bi_.address = 0x4000
+                    got = states(m2, [b for b in m2.code_blocks])
+                else:
+                    ir, m, bi, blocks, fl = scen.build(scen.Shape("plain", True, cfi="whole" if how.endswith("with-cfi") else "none"))
+                    rc = RewritingContext(m, fl)
+                    s_ = rc.register_insert_function("newfn", scen.mkpatch("\n".join(lines)))
+                    rc.apply()
+                    # the module's own code still evaluates, and so does the new function
+                    list(evaluate_cfi_directives(m, sorted(m.code_blocks, key=lambda b: b.address)))
+                    got = states(m, [b for b in s_.referent.byte_interval.blocks if isinstance(b, gtirb.CodeBlock)])
+            except Exception as ex:      # noqa
+                br.failures.append({"clause": "C08/explicit/evaluates-cleanly", "witness": desc, "detail": "%s: %s" % (type(ex).__name__, str(ex)[:100])})
+                continue
+            if got[:len(want)] != want:
+                br.failures.append({"clause": "C08/explicit/every-instruction-inside-a-procedure-iff-the-text-says-so-with-the-state-the-text-gives", "witness": desc,
+                                    "detail": "CFA offset per instruction %s, the text says %s" % (got[:len(want)], want)})
+            if len(br.samples) < 2:
+                br.samples.append(desc)
+        br.nontrivial = len(distinct)
+        return br
+    return run
 
 
 def jobs(tier="quick", seed=0):
     yield from kernels.jobs_for("C08", tier, seed)
     yield apply_bounded.job("C08", tier, seed)
+    yield Job("C08/explicit-procedures-bounded", explicit_procedures(tier, seed), kind="B", func="gtirb_rewriting.assembler._create_gtirb:create_cfi_directives / rewriting:_apply_function_insertion")
